@@ -24,7 +24,7 @@ from pfimport import exc_enum
 import mapgen
 
 DRIVER = "C01Total"
-MUTATIONS = ["drop-input", "surplus-input", "rank", "resize", "drop-internal"]
+MUTATIONS = ["drop-input", "surplus-input", "rank", "resize", "drop-internal", "scalar-for-array", "short-internal", "wrong-internal", "inconsistent-axes"]
 
 
 def _mapped_names(desc):
@@ -91,6 +91,57 @@ def mutate(desc, kind, rng):
         else:
             d["funcs"][k]["internal"] = None
         return d
+    if kind == "scalar-for-array":
+        # a root argument that a MapSpec names is given as a non-array (an opaque Term): `rootArrays` fails
+        cands = _array_inputs(d)
+        if not cands:
+            return None
+        i = rng.choice(cands)
+        name = d["inputs"][i][0]
+        d["inputs"][i] = [name, {"f": "in", "k": [["n", {"s": name}]]}]
+        d["input_kinds"].pop(name, None)
+        return d
+    if kind == "short-internal":
+        # an internal shape that is declared but too short for the internal axes of the output (rank-2 internal -> rank-1)
+        spots = [("user", k) for k, (_, s) in enumerate(d["internal"]) if len(s) > 1] + \
+                [("func", k) for k, f in enumerate(d["funcs"]) if f["internal"] and len(f["internal"]) > 1]
+        if not spots:
+            return None
+        where, k = rng.choice(spots)
+        if where == "user":
+            d["internal"][k][1] = d["internal"][k][1][:1]
+        else:
+            d["funcs"][k]["internal"] = d["funcs"][k]["internal"][:1]
+        return d
+    if kind == "wrong-internal":
+        # the declared internal size is one larger than what the function returns: the REQUEST passes every check, the
+        # DESCRIPTION is not realisable (a function that does not return what it declares) -- counted, never judged
+        spots = [("user", k) for k in range(len(d["internal"]))] + [("func", k) for k, f in enumerate(d["funcs"]) if f["internal"]]
+        if not spots:
+            return None
+        where, k = rng.choice(spots)
+        if where == "user":
+            d["internal"][k][1] = [d["internal"][k][1][0] + 1] + d["internal"][k][1][1:]
+        else:
+            d["funcs"][k]["internal"] = [d["funcs"][k]["internal"][0] + 1] + d["funcs"][k]["internal"][1:]
+        return d
+    if kind == "inconsistent-axes":
+        # one more consumer that names the (single) axis of a mapped rank-1 root array differently: `validate_consistent_axes` refuses
+        # the pipeline at the start of map by design; the model of run_map has no such check and answers; `Conforms` excludes it
+        # (`consistentAxes`) -- counted, never judged, it documents why the clause is there
+        cands = []
+        for f in d["funcs"]:
+            for a in (f["mapspec"]["inputs"] if f["mapspec"] else []):
+                if len(a[1]) == 1 and a[1][0] is not None and any(a[0] == n for n, _ in d["inputs"]):
+                    cands.append((a[0], a[1][0]))
+        if not cands:
+            return None
+        name, ax = rng.choice(cands)
+        other = next(q for q in mapgen.AX if q != ax)
+        ms = {"inputs": [[name, [other]]], "outputs": [["zz_t", [other]]]}
+        d["funcs"].append({"name": "fzz", "params": [[name, name]], "outputs": ["zz_t"], "mapspec": ms, "mapspec_str": mapgen.spec_str(ms),
+                           "autogen": False, "ret": None, "internal": None, "defaults": [], "bound": []})
+        return d
     raise ValueError(kind)
 
 
@@ -129,6 +180,7 @@ def cross_check(ctx, descs, mutations=MUTATIONS, mutants_per_case=None):
     for (kind, desc), resp in zip(cases, outs):
         r = resp["r"]
         conforms, model_ok = bool(r["conforms"]), bool(r["ok"])
+        request_ok, desc_ok = bool(r.get("requestOK", conforms)), bool(r.get("descOK", conforms))
         ok, err, where = run_real(desc)
         case = {"desc": desc, "storage": "dict", "mutation": kind}
         ctx.count(f"total:{kind}:conforms={'yes' if conforms else 'no'}:real={'answered' if ok else 'refused'}")
@@ -137,6 +189,22 @@ def cross_check(ctx, descs, mutations=MUTATIONS, mutants_per_case=None):
                 ctx.count(f"total:{kind}:fails:{c}")
             if model_ok != ok:
                 ctx.count(f"total:{kind}:not-conforming:model-{'answers' if model_ok else 'refuses'}-real-{'answers' if ok else 'refuses'}")
+        ctx.count(f"exact:{kind}:requestOK={'yes' if request_ok else 'no'}:descOK={'yes' if desc_ok else 'no'}:"
+                  f"model={'answers' if model_ok else 'refuses'}:real={'answers' if ok else 'refuses'}")
+        if conforms != (request_ok and desc_ok):
+            ctx.violation(case, "Conforms is not RequestOK && DescOK (contradicts C01_conforms_split)", found_input=False,
+                          item="theorem:C01_conforms_split", impl=None, model=r)
+            continue
+        if model_ok and not request_ok:
+            ctx.violation(case, "the model of map answers a request that fails a request check (contradicts C01_answered_request_ok)",
+                          found_input=False, item="theorem:C01_answered_request_ok", impl=None, model=r)
+            continue
+        if ok and not request_ok:
+            # exact refusal (C01_refused_iff): a request that fails one of the five request checks is refused by the model; the real
+            # library answering it is a model/code disagreement on WHEN map refuses (not a C01 clause: C01 only forbids refusing valid ones)
+            ctx.violation(case, f"the real library answers a request that fails a request check ({r['failed']}); the model refuses it",
+                          found_input=False, item="correspondence:exact-refusal", impl={"ok": True}, model=r)
+            continue
         if conforms and not model_ok:
             ctx.violation(case, "Conforms holds but the model of map refuses the request (contradicts C01_never_refused)",
                           found_input=False, item="theorem:C01_never_refused", impl=None, model=r)
